@@ -338,6 +338,9 @@ def gen_driver(facts, cfg, include_source=True):
     w('      Fix fx; bind_all(*fx.sh, *fx.comp, *fx.pump, k, ncl); std::string what; bool is_rt = false;')
     w('      bool thrown = throws([&]{ fx.sh->FinalConstruct(&parent); }, what, &is_rt);')
     w('      verif::emit("C10", "unbound-detected", binding_name(k, ncl) + "/clients=" + std::to_string(ncl), thrown && is_rt, what);')
+    w('      // a second attempt with the event still unbound must fail as well (no state may survive the exception)')
+    w('      bool again = throws([&]{ fx.sh->FinalConstruct(&parent); }, what, &is_rt);')
+    w('      verif::emit("C10", "unbound-detected-on-retry", binding_name(k, ncl) + "/clients=" + std::to_string(ncl), again, what);')
     w('    }')
     w('    { Fix fx; bind_all(*fx.sh, *fx.comp, *fx.pump, -1, ncl); std::string what;')
     w('      bool thrown = throws([&]{ fx.sh->FinalConstruct(&parent); }, what);')
